@@ -234,7 +234,7 @@ func checkC06(ix *index, add addFn) {
 	class := ""
 	for _, i := range ix.rx {
 		r := &ix.tr[i]
-		if r.S != "" && r.S != "wellformed" && r.S != "forged" {
+		if r.S != "" && r.S != "wellformed" && r.S != "wellformed-q2" && r.S != "forged" {
 			badAt, class = i, r.S
 			break
 		}
@@ -243,6 +243,12 @@ func checkC06(ix *index, add addFn) {
 		return
 	}
 	// prefix-ok: well-formed packets before the bad one had their effect
+	handlerSet := false
+	for k, op := range ix.sc.Ops {
+		if op.Kind == "handle" && op.Handler != 0 && ix.ops[k].inv >= 0 {
+			handlerSet = true
+		}
+	}
 	for _, i := range ix.rx {
 		if i >= badAt {
 			break
@@ -252,7 +258,7 @@ func checkC06(ix *index, add addFn) {
 			continue
 		}
 		switch {
-		case r.P.Type == TPublish && r.S == "wellformed":
+		case r.P.Type == TPublish && r.S == "wellformed" && handlerSet:
 			found := false
 			for j := i; j < len(ix.tr); j++ {
 				if ix.tr[j].Kind == "hin" && ix.tr[j].P.Pay == r.P.Pay {
